@@ -50,6 +50,13 @@ theorem extended_call_opcodes_dispatched :
     ["CALLGLOBALNOARITY", "CALLGLOBALTAILNOARITY"].all (fun n => dispatchArms.contains n) = true ∧
     ["FUNCNOARITY", "TAILCALLNOARITY"].all (fun n => !dispatchArms.contains n) = true := by decide
 
+/-- The specialised op codes seen in module-mode listings are real op codes, and all but `CALLPRIMITIVE` (rewritten
+before execution; the loop has no arm for it) have a dispatch arm. -/
+theorem specialised_opcodes_exist : specialisedOps.all (fun n => realOpcodes.contains n) = true := by decide
+
+theorem specialised_opcodes_dispatched :
+    (specialisedOps.filter (· != "CALLPRIMITIVE")).all (fun n => dispatchArms.contains n) = true := by decide
+
 -- non-vacuity: the tables are not empty and the reader does accept real lines
 example : realOpcodes.length ≥ 100 ∧ dispatchArms.length ≥ 80 := by decide
 example : toInstr { base := 0, names := [] } "" "" ⟨12, "READLOCAL2", 2, "##x3"⟩ = .ok (.READLOCAL 2) := by
